@@ -42,6 +42,26 @@ static void cu_free_textlist(unsigned char **l) {
     free(l);
 }
 
+/* Reference-free alternative contents of the same length (never a NUL) for the adversarial prelude ("the same call made
+ * just before on a buffer at the SAME address and of the same length but with different content"):
+ *   0: the text reversed, every byte that would stay in place changed   1: blanks <-> non-blanks
+ *   2: rotated left by one                                               3: a blank at every second place, 'a' elsewhere */
+#define CU_ALTS 4
+static void cu_alt_content(int variant, unsigned char *dst, const unsigned char *s, size_t len) {
+    size_t i;
+    for (i = 0; i < len; i++) {
+        unsigned char c;
+        switch (variant) {
+          case 0: c = s[len - 1 - i]; if (c == s[i]) c = (unsigned char) ((c == 'x') ? ' ' : 'x'); break;
+          case 1: c = (unsigned char) (isspace(s[i]) ? 'x' : ' '); break;
+          case 2: c = s[(i + 1) % len]; break;
+          default: c = (unsigned char) ((i & 1) ? ' ' : 'a'); break;
+        }
+        dst[i] = c;
+    }
+    dst[len] = 0;
+}
+
 /* NUL-terminated C string as [codes] */
 static void sb_cstr(vh_sb *b, const unsigned char *s) {
     if (!s) { sb_putc(b, '-'); return; }
